@@ -133,6 +133,14 @@ def restG (dfs : Bool) (list rest : Term) : G :=
     .fresh (if dfs then Goal.conjDOfList [consG ord (.var st.nextVar) rest list]
             else Goal.conjOfList [consG ord (.var st.nextVar) rest list])
 
+/-- `compound_fields`: the TERM fields of a compound object, in order; a child that is not a term — an `Option`
+    object (tag 4) — contributes ITS children instead (the value inside `Some` is a typed wrapper of a term) -/
+def compFields (args : Term) : List Term :=
+  args.iterItems.flatMap fun item =>
+    match item with
+    | .comp 4 kids => kids.iterItems
+    | t => [t]
+
 /-- `force_ans` (repaired: labels the fields of compound terms too); `n` bounds the term depth walked.
     `map_sum` over the domain in decreasing order builds the `mplus/delay` chain whose first element is
     the smallest value: `altOfList` over the increasing enumeration. -/
@@ -146,7 +154,7 @@ def forceAns : Nat → Term → G
       | some d => Goal.altOfList (d.iter.map fun k => eqG ord (Term.num k) (.var xv))
       | none => .succeed
     | .cons h t => Goal.conjOfList [forceAns n h, forceAns n t]
-    | .comp _ args => Goal.conjOfList (args.iterItems.map (forceAns n))
+    | .comp _ args => Goal.conjOfList ((compFields args).map (forceAns n))
     | _ => .succeed
 
 def forceFuel : Nat := 1000
